@@ -95,6 +95,9 @@ def gen(ctx):
                             r=rng.choice([0, 1, 2, min(R, C, 3)]), nb=nb0 if rng.random() < 0.7 else rng.choice(["moore", "vn"]),
                             rule=rule, T=rng.randint(2, 3), memo=rng.choice(MEMOS)))
         yield dict(kind="seq", seq=seq, shared_rule=1)
+    for _ in range(ctx.n(40, 400)):
+        yield dict(kind="szero", R=rng.randint(2, 5), C=rng.randint(2, 5), T=rng.randint(3, 6), memo=rng.choice(MEMOS),
+                   nb=rng.choice(["Moore", "von Neumann"]), dyn=int(rng.random() < 0.3), seed=rng.randrange(10 ** 6))
     for _ in range(ctx.n(30, 200)):
         c = rand_case(rng)
         c["memo"] = rng.choice(["bad:Recursive", "bad:None", "bad:2", "bad:x", "bad:memo"])
@@ -105,10 +108,12 @@ def gen(ctx):
 
 
 def line(c):
-    return None if c["kind"] == "seq" else ev2.line(c)
+    return None if c["kind"] in ("seq", "szero") else ev2.line(c)
 
 
 def impl(c):
+    if c["kind"] == "szero":
+        return "n/a"
     if c["kind"] == "seq":
         if c.get("shared_rule"):
             from .. import fmt
@@ -163,7 +168,27 @@ def _one(x):
     return None
 
 
+def szero_run(c, memo):
+    import cellpylib as cpl
+    rng = np.random.RandomState(c["seed"])
+    vals = np.array([0.0, -0.0, 2.0, -2.0, 3.5])
+    ca = vals[rng.randint(0, 5, size=(1, c["R"], c["C"]))]
+
+    def rule(n, cc, t):
+        x = float(np.ma.getdata(n)[1][1])
+        up = float(np.ma.getdata(n)[0][1])
+        if x != 0.0:
+            return x if not np.signbit(up) else -x
+        return -0.0 if not np.signbit(x) else 7.0
+    ts = (lambda a, t: t < c["T"]) if c["dyn"] else c["T"]
+    return cpl.evolve2d(ca, timesteps=ts, apply_rule=rule, r=1, neighbourhood=c["nb"], memoize=memo)
+
+
 def oracle(c):
+    if c["kind"] == "szero":
+        a = szero_run(c, ev2.memo_value(c["memo"]))
+        b = szero_run(c, False)
+        return None if a.tobytes() == b.tobytes() else "memoize=%r differs (bitwise) from memoize=False on a float grid with signed zeros" % (ev2.memo_value(c["memo"]),)
     if c["kind"] == "seq":
         runs = run_shared(c["seq"]) if c.get("shared_rule") else [ev2.run_impl(x) for x in c["seq"]]
         for i, (x, m) in enumerate(zip(c["seq"], runs)):
@@ -183,7 +208,7 @@ def ncalls(ans):
 
 
 def nontrivial(c, ans):
-    if c["kind"] == "seq":
+    if c["kind"] in ("seq", "szero"):
         return True
     if not ans.startswith("ok") or ev2.mode_of(c["memo"]) == "bad":
         return False
